@@ -37,10 +37,11 @@ CLIENT = ("10.77.77.77", 7777)
 class _Capture(io.BytesIO):
     """wfile whose contents survive close(); optionally fails the k-th write."""
 
-    def __init__(self, fail_at=None, fail_exc=None):
+    def __init__(self, fail_at=None, fail_exc=None, during=None):
         super().__init__()
         self.final = None
         self.writes = 0
+        self.during = during          # called inside every write(), before the written object is consumed
         self.fail_at = fail_at
         self.fail_exc = fail_exc
         self.failed = 0
@@ -50,6 +51,12 @@ class _Capture(io.BytesIO):
         if self.fail_at is not None and self.writes >= self.fail_at:
             self.failed += 1
             raise self.fail_exc()
+        if self.during is not None:
+            d, self.during = self.during, None      # (not re-entered by what it does)
+            try:
+                d()
+            finally:
+                self.during = d
         return super().write(b)
 
     def close(self):
@@ -164,11 +171,11 @@ class World:
         self.server.server_port = 70 if not cp.has_option(s, "advertisedport") else self.server.server_port
         logger.log = self.logbuf.append
 
-    def request(self, data: bytes, tls=False, fail_at=None, fail_exc=None, stderr_quiet=True) -> Result:
+    def request(self, data: bytes, tls=False, fail_at=None, fail_exc=None, stderr_quiet=True, during=None) -> Result:
         logger.log = self.logbuf.append
         del self.logbuf[:]
         rfile = io.BytesIO(data)
-        wfile = _Capture(fail_at, fail_exc)
+        wfile = _Capture(fail_at, fail_exc, during)
         req = (MockSSLRequest if tls else MockRequest)(rfile, wfile)
         escaped = None
         t0 = time.perf_counter()
